@@ -6,6 +6,8 @@ TECH = "bounded symbolic execution of the real coba code on z3-backed proxy valu
 NOTE = "Trusted: z3 5.1, CPython, the symx proxies (validated by ./check --setup self-tests and by replaying every counterexample without proxies). Bounds per obligation are in the evidence file; nothing outside them is claimed."
 
 CLAIMED = {
+ 'C19': dict(design='C19', text="Rely/guarantee with a symbolic environment: one caller runs the real ConcurrentCacher.get_set / rmv from the between-operations state while the shared counter of its slot and the inner cache's membership are havocked (within the lock-table invariant) at every lock entry and sleep, which stands for any number of other callers in any interleaving; z3 decides every branch. Each atomic block preserves the invariant, the inner cache is read only under a lock and changed only under the write lock, the getter runs only under the write lock on a missing key, and on every exit path all own entries are released. Nested calls on the same/another key and DiskCacher's failure control flow are executed on top.",
+             note="spin loops unrolled once (twice thorough), liveness under fairness outside; DiskCacher torn files (zlib/C I/O) not encoded - only its control flow on an enumerated fault position"),
  'C20': dict(design='C20', text="InteractionsEncoder.encode executed on symbolic integer features; every output entry is a z3 polynomial and is matched one-to-one with the reference monomials by z3-decided polynomial identities valid for all integers; structure (term list, lengths, dense/sparse/string/scalar/None kinds, encoder re-use across calls) enumerated within bounds.",
              note="degree<=4, length<=4 quick (5,5 thorough); absent namespaces and repeated identical terms outside the claim"),
  'C05': dict(design='C05', text="CobaRandom executed from an arbitrary symbolic generator state: the LCG step is proved a bijection on all 2^30 states (bit-vectors), uniforms are exact dyadic reals, randint/randints/shuffle/choice/choicew/gauss contracts and instance/module/stdlib interleavings are z3 queries over all states or over an arbitrary grid-valued uniform stream; random(min,max) is decided bit-exactly in QF_FP by a z3||cvc5 portfolio.",
